@@ -238,6 +238,38 @@ def _run(ctx):
             r3.fail("C04.R3:asset:%d" % k, cf.path, cf.span, "refund %d is denominated in %s, expected the pool asset it was computed from" % (k, sorted(info_roots)))
         else:
             r3.site("refund %d: asset = pools[%d].info, recipient = sender, via %s" % (k, k, wd.tc.path))
+        # a refund may be skipped only when it is itself empty (a zero-amount transfer is refused by the chain): any other
+        # condition it sits under — and the successful exit does not — lets the burn go through without paying that share
+        if hf_.path == w.path:
+            pay_cs = lemmas.cond_strings(ctx, common.control_conditions(P, w, hb_))
+            exits_ = common.exit_sites(P, w)
+            oks_ = [e_ for e_ in exits_ if e_[2] == "ok"] or [e_ for e_ in exits_ if e_[2] != "err"]
+            ok_cs = None
+            for (ob, _i, _c, _v) in oks_:
+                s_ = lemmas.cond_strings(ctx, common.control_conditions(P, w, ob))
+                ok_cs = s_ if ok_cs is None else (ok_cs & s_)
+            own = "|".join(sorted(ctx.roots(cv[4][0], (("f", "amount"),))))
+            zero_rx = r"(K:0|C:cosmwasm_std::(\S*::)?Uint128::zero@[^|,]*)"
+            # the same element reached through another `refunds[k]` index call has another root string: compare by element
+            own_me = common.mapped_element(cv[4][0])
+            same_elem = set()
+            for cd_ in common.control_conditions(P, w, hb_):
+                cc_ = cd_["cond"]
+                if cc_[0] == "cmp" and cc_[1] == "is_zero" and len(cc_[2]) == 1 and own_me is not None:
+                    av_ = cc_[2][0]
+                    while av_[0] == "call" and isinstance(av_[3], str) and common.transparent_arg(av_[3]) == 0 and common.last_seg(av_[3]) not in ("index",):
+                        av_ = av_[4][0]
+                    if av_[0] == "proj" and av_[2] == ("f", "amount"):
+                        me_ = common.mapped_element(av_[1])
+                        if me_ is not None and me_[0] == own_me[0] and me_[1] == own_me[1]:
+                            same_elem |= lemmas.cond_strings(ctx, [cd_])
+            for c_ in sorted(pay_cs - (ok_cs or set())):
+                m_z = re.match(r"^is_zero\((.+)\) is \[False\]$", c_) or re.match(r"^lt\(%s, (.+)\)$" % zero_rx, c_)
+                if m_z and (m_z.group(m_z.lastindex) == own or c_ in same_elem):
+                    r3.site("refund %d skipped only when its own amount is zero" % k)
+                else:
+                    r3.fail("C04.R3:refund-gate:%d:%s" % (k, c_[:80]), w.path, common.span_of_block_term(w, hb_),
+                            "refund %d is built only under %s, which the successful exit is not under: the LP tokens can be burnt without paying that share" % (k, c_))
     # all messages reach the response
     lemmas.check_transfer_ctor(ctx, r3)
     sinks = roles.sink_blocks(P, w)
